@@ -58,6 +58,9 @@ def run_schedules(task):
             elif sc == "pickled":
                 cp = pickle.loads(pickle.dumps(hh))
                 plan = {"t1": (hh, 0, [0, 1, 2, 3]), "t2": (cp, 0, [4, 5, 6, 7])}
+            elif sc == "same-line":
+                # the same line asked for as an integer (axis dropped) and as a one-line block (axis kept), at the same time
+                plan = {"t1": (hh, 0, 3), "t2": (hh, 0, slice(3, 4)), "t3": (hh, 0, [3])}
             elif sc == "two-trees":
                 if "tree_b" not in out:
                     out["tree_b"] = ceos_alos2.open_alos2(url, backend_options=dict(use_cache=False, records_per_chunk=2))
@@ -72,6 +75,8 @@ def run_schedules(task):
             tracefs.take_log()
             S = sched.Scheduler()
             workers = {n: (lambda da=da, rows=rows: da.isel(rows=rows).values) for n, (da, _, rows) in plan.items()}
+            shapes = {n: ((b.images[ii]["p"],) if isinstance(rows, int) else None) for n, (da, ii, rows) in plan.items()}
+            plan = {n: (da, ii, [rows] if isinstance(rows, int) else (list(range(8))[rows] if isinstance(rows, slice) else rows)) for n, (da, ii, rows) in plan.items()}
             r = S.run(workers, script)
             evs = tracefs.take_log()
             names = {ident: nm for ident, nm in S.names.items()}
@@ -89,7 +94,11 @@ def run_schedules(task):
                 if n in r["errors"]:
                     outcome = "error"
                 else:
-                    msg = oracle.pixels_match(r["results"].get(n), b.images[ii], rows=rows) if n in r["results"] else "no result"
+                    got = r["results"].get(n)
+                    if n in r["results"] and shapes.get(n) is not None:
+                        msg = f"shape {got.shape}, expected {shapes[n]} (an integer index drops the axis)" if tuple(got.shape) != shapes[n] else oracle.pixels_match(got.reshape(1, -1), b.images[ii], rows=rows)
+                    else:
+                        msg = oracle.pixels_match(got, b.images[ii], rows=rows) if n in r["results"] else "no result"
                     outcome = "sequential" if msg is None else "differs"
                 lines.append({"e": "ret", "t": n, "outcome": outcome, "msg": r["errors"].get(n, "")})
             lines.append({"e": "end", "deadlock": bool(r["deadlock"])})
@@ -97,6 +106,48 @@ def run_schedules(task):
     finally:
         out.pop("tree_b", None)
         tracefs.SHARED.discard(tracefs.norm(url))
+        tracefs.remove(url)
+    return out
+
+
+def big_load(task):
+    """loads of several MB spanning several groups on a non-local filesystem whose reads take a moment (jitter): whatever threads the
+    implementation uses internally share the load's handle -- alone and from two user threads at once"""
+    import threading
+
+    import ceos_alos2
+
+    from harness import bigimg, oracle, tracefs
+
+    b = bigimg.build("1.5", 24, 250000, task["seed"])
+    url = tracefs.put_product(f"c19big_{os.getpid()}_{task['seed']}", b.files)
+    out = {"task": task, "bad": []}
+    try:
+        tracefs.JITTER[0] = 0.001
+        tree = ceos_alos2.open_alos2(url, backend_options=dict(use_cache=False, records_per_chunk=4))
+        da = tree[f"imagery/{b.images[0]['group']}/data"]
+        im = b.images[0]
+        cols = list(range(0, 250000, 9973))
+
+        def load(rows, res, key):
+            try:
+                v = da.isel(rows=rows).values
+                res[key] = oracle.pixels_match(v[:, cols], im, rows=rows, cols=cols)
+            except BaseException as e:  # noqa: B902
+                res[key] = f"raised {type(e).__name__}: {str(e)[:120]}"
+
+        res = {}
+        load(list(range(24)), res, "alone")
+        ts = [threading.Thread(target=load, args=(list(range(0, 16)), res, "t1")), threading.Thread(target=load, args=(list(range(8, 24)), res, "t2"))]
+        for t in ts:
+            t.start()
+        for t in ts:
+            t.join(120)
+        for k, msg in res.items():
+            if msg:
+                out["bad"].append((k, msg))
+    finally:
+        tracefs.JITTER[0] = 0.0
         tracefs.remove(url)
     return out
 
@@ -138,10 +189,12 @@ def body(chk):
     tasks.append(dict(scenario="one-chunk", level="1.5", seed=chk.seed, scripts=all70[:35]))
     tasks.append(dict(scenario="one-chunk", level="1.1", seed=chk.seed + 1, scripts=all70[35:]))
     for sc, cfg in (("diff", "MC_Loads_sim_diff"), ("same", "MC_Loads_sim_same"), ("pickled", "MC_Loads_sim_same"), ("copy-memfs", "MC_Loads_sim_same"),
-                    ("two-trees", "MC_Loads_sim_diff"), ("three", "MC_Loads_sim_three")):
+                    ("two-trees", "MC_Loads_sim_diff"), ("same-line", "MC_Loads_sim_three"), ("three", "MC_Loads_sim_three")):
         scripts, rs = scripts_from_tlc(cfg, 40 if nq else 600, 40, chk.seed + len(tasks))
         chk.tlc_stats(rs)
         # the lock of a same-variable scenario serialises the model's behaviours: add adversarial scripts that TRY to interleave
+        if sc == "same-line":
+            scripts = scripts[:10] + [s for s in itertools.islice(interleavings(["t1"] * 4, ["t2"] * 4), 0, 70, 5)] + [["t1", "t2", "t3"] * 5, ["t3", "t1", "t2", "t2", "t1", "t3"] * 3]
         if sc in ("same", "pickled", "copy-memfs", "two-trees"):
             scripts += [s for s in itertools.islice(interleavings(["t1"] * 6, ["t2"] * 6), 0, 924, 23 if nq else 3)]
         for i in range(0, len(scripts), 20):
@@ -150,6 +203,11 @@ def body(chk):
     L.instances([dict(L.SMALL_LEADER), dict(L.SMALL_LEADER, nmap=0), dict(file="volume", nfp=5), dict(file="trailer", nlow=0, lens=[]),
                  dict(file="image", kind="processed", n=8, ndata=6, bps=2), dict(file="image", kind="processed", n=4, ndata=4, bps=2),
                  dict(file="image", kind="signal", n=8, ndata=24, bps=8), dict(file="image", kind="signal", n=4, ndata=16, bps=8)])
+    L.instances([dict(file="image", kind="processed", n=24, ndata=500000, bps=2), dict(file="image", kind="processed", n=1, ndata=2, bps=2), dict(file="volume", nfp=3)])
+    for res in checklib.pmap(big_load, [dict(seed=chk.seed + 90 + i) for i in range(2)], chk.scratch, procs=2):
+        chk.count(3, f"big-load:{res['task']['seed']}")
+        for who, msg in res["bad"]:
+            chk.violation(f"big-load:{who}", f"12 MB load over 6 groups on a slow non-local filesystem ({who}): {msg}", {"task": res["task"]})
     results = checklib.pmap(run_schedules, tasks, chk.scratch)
     path = os.path.join(chk.scratch, "c19.ndjson")
     info = {}
